@@ -270,7 +270,8 @@ def _assigned_names(stmts):
                     for m in ast.walk(t):
                         if isinstance(m, ast.Name):
                             out.add(m.id)
-            elif isinstance(n, (ast.For, ast.While, ast.Try, ast.With, ast.Return, ast.Break, ast.Continue, ast.Raise)):
+            elif isinstance(n, (ast.For, ast.While, ast.With, ast.Return, ast.Break, ast.Continue, ast.Raise)):
+                # (try / except is followed: an exception under a symbolic condition inside the per-element evaluation leaves the subset)
                 raise Unsupported(f'{type(n).__name__} inside a loop over a symbolic sequence')
     return out
 
@@ -383,6 +384,8 @@ def fold_loop(I, st, pipe, env):
     unknown_after = []
     for n in list(accs):
         found, v = env.lookup(n)
+        if found and type(v).__name__ == 'Havoc':
+            found = False       # (left unknown by an earlier loop: any read before the body assigns it leaves the subset)
         if not found:
             # a temporary of the body (assigned before it is read in every iteration, or the read fails as an unbound local in the
             # per-element evaluation): not an accumulator; after the loop its value is unknown
